@@ -25,6 +25,10 @@ claimed = {
          "Necessary structural conditions of `every hunk is a real difference` are decided on every path of the diff functions; per-value statements (removed differs from added, leave-one-out redundancy) are not.", "4 C07"),
  "C08": ("static analysis: cut-set / loop-verification rule R-EXPECT over jsonSet.patch and jsonMultiset.patch, R-PATCHRESULT, R-FWD, R-KINDS, R-IDENTUSE",
          "Every success return of a set/multiset hunk is shown to lie behind the lookup and comparison of each removed member (or the count-underflow test), with error-only failure sides; the dropped outcome of the keyed-member patch is a genuine defect recorded as a known finding. Order independence on concrete values is not decided.", "4 C08"),
+ "C02": ("static analysis: finite-automaton extraction from readDiff's SSA by assumption-pruned reachability, writer line-grammar extraction from Render, exhaustive product simulation; table inverses R-PATHTAB; codec who-may-call R-JSONCODEC",
+         "The reader's full transition/flush/effect table and the writer's line grammar are extracted from the code and every hunk sequence (up to 3 hunks over all 75 hunk shapes the property names) is simulated against them: no loss, no rejection, right field per line. This is exhaustive over the finite line-kind abstraction; payload bytes are not decided.", "4 C02"),
+ "C16": ("static analysis: type-switch arm table of NewJsonNode against the frozen yaml.v2 v2.4.0 / encoding/json dynamic type table, codec routing by call graph (R-CODEC), codec who-may-call (R-JSONCODEC)",
+         "Decides only the structural part: every dynamic type either codec produces has a conversion arm to the right node type and each format is read/written through its own codec with default settings. Scalar quoting and float formatting are library behaviour on values and are not decided.", "4 C16"),
 }
 na = {}
 props = [json.loads(l) for l in open(os.path.join(V, "properties.jsonl"))]
